@@ -234,11 +234,12 @@ class Shadow:
     def existing(self):
         return list(self.nodes)
 
-    def fresh_path(self, rng: random.Random, maxdepth=4):
+    def fresh_path(self, rng: random.Random, maxdepth=4, keys=None):
+        keys = keys or KEYS
         g = rng.choice(self.groups())
         path = list(g)
         for _ in range(rng.choice([1, 1, 1, 2, 3])):
-            path.append(rng.choice(KEYS))
+            path.append(rng.choice(keys))
             if len(path) >= maxdepth:
                 break
         return path
@@ -293,10 +294,19 @@ class Shadow:
                     self.attrs.pop(q, None)
 
 
-def gen_history(rng: random.Random, nops: int, p_bnd=0.18, allow_copy=True, allow_self_copy=True) -> List[Any]:
+def gen_history(rng: random.Random, nops: int, p_bnd=0.18, allow_copy=True, allow_self_copy=True,
+                keys=None, attr_keys=None, prefix=None, values=None) -> List[Any]:
+    """Random history biased towards valid operations.  Optional: key alphabets, a prefix of
+    operations to continue from (counted in nops), the value pool."""
+    keys = keys or KEYS
+    attr_keys = attr_keys or ATTR_KEYS
+    values = values or VALUE_POOL
     sh = Shadow()
     ops: List[Any] = []
-    val = lambda: rng.choice(VALUE_POOL)  # noqa: E731
+    for op in prefix or []:
+        ops.append(op)
+        sh.apply(op)
+    val = lambda: rng.choice(values)  # noqa: E731
     while len(ops) < nops:
         r = rng.random()
         if r < p_bnd:
@@ -307,14 +317,14 @@ def gen_history(rng: random.Random, nops: int, p_bnd=0.18, allow_copy=True, allo
                 ["set", "grp", "del", "aset", "adel", "copy", "move", "bad"],
                 [24, 14, 16, 12, 6, 8 if allow_copy else 0, 6 if allow_copy else 0, 8])[0]
             if kind == "set":
-                op = ["set", sh.fresh_path(rng), val()]
+                op = ["set", sh.fresh_path(rng, keys=keys), val()]
             elif kind == "grp":
-                op = ["grp", sh.fresh_path(rng)]
+                op = ["grp", sh.fresh_path(rng, keys=keys)]
             elif kind == "del" and ex:
                 op = ["del", list(rng.choice(ex))]
             elif kind == "aset":
                 holder = list(rng.choice(ex + [()])) if ex else []
-                op = ["aset", holder, rng.choice(ATTR_KEYS), val()]
+                op = ["aset", holder, rng.choice(attr_keys), val()]
             elif kind == "adel":
                 cands = [(p, k) for p, ks in sh.attrs.items() for k in ks]
                 if not cands:
@@ -323,7 +333,7 @@ def gen_history(rng: random.Random, nops: int, p_bnd=0.18, allow_copy=True, allo
                 op = ["adel", list(p), k]
             elif kind in ("copy", "move") and ex:
                 s = list(rng.choice(ex))
-                d = sh.fresh_path(rng)
+                d = sh.fresh_path(rng, keys=keys)
                 if tuple(d[:len(s)]) == tuple(s):
                     if kind == "move" or not allow_self_copy:
                         continue   # moving into own subtree is excluded by the property
@@ -333,13 +343,13 @@ def gen_history(rng: random.Random, nops: int, p_bnd=0.18, allow_copy=True, allo
                 ds = [p for p, k in sh.nodes.items() if k == "D"]
                 choice = rng.randrange(6)
                 if choice == 0:
-                    op = ["del", sh.fresh_path(rng)]
+                    op = ["del", sh.fresh_path(rng, keys=keys)]
                 elif choice == 1 and ex:
                     op = ["set", list(rng.choice(ex)), val()]
                 elif choice == 2 and ex:
                     op = ["grp", list(rng.choice(ex))]
                 elif choice == 3 and ds:
-                    op = [rng.choice(["set", "grp"]), list(rng.choice(ds)) + [rng.choice(KEYS)]] + (["i:1"] if False else [])
+                    op = [rng.choice(["set", "grp"]), list(rng.choice(ds)) + [rng.choice(keys)]]
                     if op[0] == "set":
                         op.append(val())
                 elif choice == 4:
